@@ -245,9 +245,11 @@ def replay_failure(mod, cfg, kind, values, decisions):
     """concrete replay: does the real code, on floats, with the model's draws, violate `kind`?"""
     if hasattr(mod, 'replay_concrete'):
         try:
-            return mod.replay_concrete(cfg, kind, values, decisions)
+            r = mod.replay_concrete(cfg, kind, values, decisions)
         except Exception as e:
             return {'reproduced': False, 'why': 'replay_concrete raised %r' % (e,)}
+        if r is not None:
+            return r
     h, out, err = concrete_run(mod, cfg, values, decisions)
     if err is not None:
         return {'reproduced': False, 'why': err}
